@@ -166,6 +166,21 @@ func genCase(seed int64, idx int, o genOpts) *Case {
 	if o.late && nColl > 1 && rnd.Intn(2) == 0 {
 		lateColl = 1 + rnd.Intn(nColl-1)
 	}
+	if o.partBeforeColl && nColl > 1 {
+		// the race needs a late collection with several shards and a droppable partition: take the best candidate
+		best := -1
+		for ci := 1; ci < nColl; ci++ {
+			if len(c.Colls[ci].Parts) < 2 {
+				continue
+			}
+			if best < 0 || len(c.Colls[ci].Shards) > len(c.Colls[best].Shards) {
+				best = ci
+			}
+		}
+		if best >= 0 {
+			lateColl = best
+		}
+	}
 	order := rnd.Perm(nColl)
 	if crossPerm != nil {
 		// the single-shard anchors first (they establish the channel pairing), the rest in seeded order
@@ -224,7 +239,7 @@ func genCase(seed int64, idx int, o genOpts) *Case {
 	if o.drops {
 		for ci, col := range c.Colls {
 			for pi := 1; pi < len(col.Parts); pi++ {
-				if rnd.Intn(3) == 0 {
+				if rnd.Intn(3) == 0 || (o.partBeforeColl && ci == lateColl && pi == 1) {
 					at := make([]int, len(col.Shards))
 					for si := range at {
 						at[si] = nPacks/2 + rnd.Intn(max(1, nPacks/2-1))
@@ -410,6 +425,9 @@ func genCase(seed int64, idx int, o genOpts) *Case {
 	anchorP := c.Colls[0].Shards[0].SrcP
 	if lateColl >= 0 {
 		st := Step{Kind: sStartColl, Coll: lateColl, Async: true, After: []Dep{packDep(anchorP, lateAt-1, 0)}}
+		if o.partBeforeColl {
+			st.DelayMs = 300 // the collection event is handled after the partition events
+		}
 		si := len(c.Steps)
 		c.Steps = append(c.Steps, st)
 		for pi := range c.Colls[lateColl].Parts {
